@@ -108,7 +108,13 @@ def check_case(ctx, case):
     ops.append({'op': 'output_docs'})
     for f in fmts:
         ops.append({'op': 'output', 'format': f})
+    # later encodings of other content in the same process must not disturb the bytes already returned
+    ops.append({'op': 'merge_doc', 'id': 'other', 'data': {'other': [1, 'two', {'three': 3.5}], 'pad': 'x' * 40}, 'parser': 1})
+    for f in ('json', 'yaml', 'toml', 'jsonl'):
+        ops.append({'op': 'output', 'format': f, 'parser': 1})
     resp = ctx.call(ops, res)
+    if res.verdict == 'violated':
+        return res
     if resp is None:
         return res.violate('crash', 'worker died', docs=docs)
     rs = resp['results']
